@@ -74,10 +74,43 @@ def _rgrid(pts):
     return OneDGrid(pts, np.ones(len(pts)), (0, np.inf))
 
 
+_DT = {"float64": np.float64, "float32": np.float32, "float16": np.float16, "longdouble": np.longdouble, "int64": np.int64, "int32": np.int32}
+
+
+def _rgrid_of(st, shared):
+    """The radial grid of a step: the listed points in the listed order (dtype `pdtype`), a grid the library itself
+    produces (`rgrid`: MultiExp transform of Gauss-Legendre = descending radii; a reversed / ascending rule), or an
+    object made by an earlier step (`rgrid_id`)."""
+    from grid.basegrid import OneDGrid
+    rid = st.get("rgrid_id")
+    if rid is not None and rid in shared:
+        return shared[rid]
+    spec = st.get("rgrid")
+    if spec is None:
+        pts = np.asarray(st["rpoints"], dtype=_DT[st.get("pdtype", "float64")])
+        rg = OneDGrid(pts, np.ones(len(pts)), (0, np.inf))
+    else:
+        from grid.onedgrid import GaussLegendre, GaussLaguerre
+        from grid.rtransform import MultiExpRTransform, BeckeRTransform
+        if spec["kind"] == "multiexp":
+            rg = MultiExpRTransform(spec["rmin"], spec["R"]).transform_1d_grid(GaussLegendre(spec["n"]))
+        elif spec["kind"] == "becke":
+            rg = BeckeRTransform(spec["rmin"], spec["R"]).transform_1d_grid(GaussLegendre(spec["n"]))
+        elif spec["kind"] == "laguerre-reversed":
+            g = GaussLaguerre(spec["n"])
+            rg = OneDGrid(g.points[::-1], g.weights[::-1], g.domain)
+        else:
+            raise SystemExit("unknown rgrid " + str(spec))
+    if rid is not None:
+        shared[rid] = rg
+    return rg
+
+
 def exec_steps(steps):
     import grid.angular as ang
     A = ang.AngularGrid
     res, last, lastarr = [], None, None
+    shared = {}
     for st in steps:
         op = st["op"]
         r = None
@@ -133,9 +166,13 @@ def exec_steps(steps):
         elif op == "attrs":          # accessors of the last AngularGrid in the given order
             r = {"values": [[a, (len(getattr(last, a)) if a in ("points", "weights") else getattr(last, a))] for a in st["order"]]}
             r["values"] = [[a, (int(v) if isinstance(v, (int, np.integer)) else v)] for a, v in r["values"]]
+        elif op == "rgrid_edit":     # the caller overwrites the points of a radial grid object it keeps using
+            rg = shared[st["rgrid_id"]]
+            rg.points[...] = np.asarray(st["rpoints"], dtype=float)
+            r = {"edited": "rgrid"}
         elif op in ("atomgrid", "pruned", "preset"):
             from grid.atomgrid import AtomGrid
-            rg = _rgrid(st["rpoints"])
+            rg = _rgrid_of(st, shared)
             kw = {"method": st["method"]} if "method" in st else {}
             if op == "atomgrid":
                 cont = {"array": np.array, "list": list}[st.get("container", "list")]
@@ -143,10 +180,21 @@ def exec_steps(steps):
                 out, ws = _call(AtomGrid, rg, **{key: cont(st["seq"])}, **kw)
             elif op == "pruned":
                 key = "d_sectors" if st["kind"] == "deg" else "s_sectors"
-                out, ws = _call(AtomGrid.from_pruned, rg, st["radius"], r_sectors=st["r_sectors"], **{key: st["seq"]}, **kw)
+                rs = st["r_sectors"]
+                if "bdtype" in st:      # the boundaries as an array of a given dtype (one object for both calls)
+                    rs = np.asarray(rs, dtype=_DT[st["bdtype"]])
+                    rs0 = rs.copy()
+                radius = _DT[st["rdtype"]](st["radius"]) if "rdtype" in st else st["radius"]
+                out, ws = _call(AtomGrid.from_pruned, rg, radius, r_sectors=rs, **{key: st["seq"]}, **kw)
             else:
                 out, ws = _call(AtomGrid.from_preset, atnum=st["atnum"], preset=st["preset"], rgrid=rg, **kw)
             r = _err(out) if isinstance(out, Exception) else _atom(out)
+            r["rpoints"] = [float(x) for x in rg.points]
+            if op == "pruned" and st.get("twice"):
+                out2, _ = _call(AtomGrid.from_pruned, rg, radius, r_sectors=rs, **{key: st["seq"]}, **kw)
+                r["second"] = _err(out2) if isinstance(out2, Exception) else _atom(out2)
+                if "bdtype" in st:
+                    r["bounds_unchanged"] = bool(np.array_equal(rs, rs0))
         elif op in ("atomgrid2", "pruned2"):
             from grid.atomgrid import AtomGrid
             rg = _rgrid(st["rpoints"])
@@ -174,7 +222,7 @@ def exec_steps(steps):
             from grid.molgrid import MolGrid
             atnums = np.array(st["atnums"])
             atcoords = np.array(st["atcoords"], dtype=float)
-            rg = _rgrid(st["rpoints"])
+            rg = _rgrid_of(st, shared)
             if op == "molsize":
                 out, ws = _call(MolGrid.from_size, atnums, atcoords, st["size"], rgrid=rg, store=True)
             elif op == "molpruned":
@@ -183,6 +231,7 @@ def exec_steps(steps):
             else:
                 out, ws = _call(MolGrid.from_preset, atnums, atcoords, st["preset"], rgrid=rg, store=True)
             r = _err(out) if isinstance(out, Exception) else {"atoms": [_atom(g) for g in out.atgrids], "size": int(out.size)}
+            r["rpoints"] = [float(x) for x in rg.points]
         else:
             raise SystemExit("unknown step " + op)
         r["caches"] = {n: sorted(int(k) for k in getattr(ang, n)) for n in
@@ -308,7 +357,20 @@ import warnings
 import numpy as np
 
 
-def same_object(route, m, kind, cont, req, times, which=0, nat=2):
+def same_object_contents(route, m, kind, obj, contents, which, nat):
+    # one use of an existing object whose contents are `contents`, against the table
+    _PREBUILT['obj'] = obj
+    try:
+        p = same_object(route, m, kind, 'prebuilt', contents, 1, which, nat)
+    finally:
+        _PREBUILT.pop('obj', None)
+    return p[0] if p else None
+
+
+_PREBUILT = {}
+
+
+def same_object(route, m, kind, cont, req, times, which=0, nat=2, then=None):
     # Pass ONE object holding the request `req` (sizes or degrees) to `route` `times` times; every answer against the
     # brute-force minimum over the table of the method computed from a pristine copy of the request, and the object
     # itself unchanged afterwards. -> list of problems (empty: fine).
@@ -326,7 +388,9 @@ def same_object(route, m, kind, cont, req, times, which=0, nat=2):
         return min(c, key=lambda p: p[0] if kind == 'deg' else p[1]) if c else None
     ref = [least(x) for x in pristine]
     base = None
-    if cont in ('view', 'strided', 'rev', 'ro'):
+    if cont == 'prebuilt':
+        obj = _PREBUILT['obj']
+    elif cont in ('view', 'strided', 'rev', 'ro'):
         # the object is a window on a larger array of the caller (the elements around it must survive too)
         if cont == 'view':
             base = np.array([7001, 7002] + pristine + [7003], dtype=np.int64)
@@ -396,6 +460,16 @@ def same_object(route, m, kind, cont, req, times, which=0, nat=2):
         problems.append('the argument object itself now holds %r instead of %r' % (now, pristine))
     if base is not None and not np.array_equal(base, base0):
         problems.append('the larger array of the caller the argument is a window on changed: %r -> %r' % (base0.tolist(), base.tolist()))
+    if then is not None and not problems and cont not in ('tuple', 'ro'):
+        # the caller overwrites the SAME object in place with another request of the same length and uses it again:
+        # the answer must be the one for the new contents (nothing may be remembered by the identity of the object)
+        if cont == 'list':
+            obj[:] = [int(x) for x in then]
+        else:
+            obj[...] = np.asarray(then, dtype=obj.dtype)
+        more = same_object_contents(route, m, kind, obj, [int(x) for x in then], which, nat)
+        if more:
+            problems.append('after the object was overwritten in place with %r: %s' % ([int(x) for x in then], more))
     return problems
 """
 
